@@ -959,9 +959,9 @@ def run(ctx):
     res = vlib.proof_stage(ctx)
     proof_ok = res["ok"]
 
-    okm, logm = vlib.coq_make(["Lookup/Model.vo"])
+    okm, logm = vlib.coq_make(["Lookup/Model.vo", "Lookup/Poet.vo"])
     if not okm:
-        ctx.violation("model-does-not-compile", "coq/Lookup/Model.v does not compile", {"log": logm[-4000:]}, found_input=False)
+        ctx.violation("model-does-not-compile", "coq/Lookup/Model.v or coq/Lookup/Poet.v does not compile", {"log": logm[-4000:]}, found_input=False)
         return
     rmodel = vlib.ocaml_build("c07", "Extract_C07.v", DRIVER)
     b = vlib.librime_build("asan")
@@ -1223,6 +1223,11 @@ MUTATION_DRILLS = [
      "fired": "VIOLATION script:foreign-sentence:sentence with a concrete failing input (found by the source-row reference): schema "
               "ds0_v0, input 'bab', candidate `sentence 0 3` consisting of one word that is spelled by [1,3) only - not a "
               "concatenation covering the input (corpus/C07/drill-poet-no-reachability-test.json)"},
+    {"mutation": "poet.cc BeamSearch::kMaxLineCandidates 7 -> 2 (a narrower beam; only taken with a grammar component, which the "
+                 "tree does not have, so the translators and the test suite cannot notice)", "compiles": True, "detected": True,
+     "fired": "VIOLATION correspondence:poet no-failing-input-found on the direct stream: 10 of 6000 word graphs (BeamSearch with "
+              "the test grammar), e.g. total 7, `impl sent 42:3:4,42:19:7` vs `model sent 45:4:4,42:19:7` "
+              "(corpus/C07/drill-poet-beam-width.json); the translator stream is unaffected, as it must be"},
     {"mutation": "(unfixed tree) table_translator.cc without the Sort() calls of fix 3b72e76", "compiles": True, "detected": True,
      "fired": "VIOLATION table:weight-order:plain, failing input 'bb' with speller/algebra xform/^b$/bb/ (corpus/C07/unfixed-table-weight-order.json)"},
     {"mutation": "(unfixed tree) table_translator.cc with the shallow DictEntryIterator copy, before fix f0d9311", "compiles": True,
